@@ -44,9 +44,9 @@ func (l *Log) add(e string) {
 
 type PubKey struct{ B []byte }
 
-func (p *PubKey) Marshal() []byte                  { return append([]byte(nil), p.B...) }
+func (p *PubKey) Marshal() []byte                   { return append([]byte(nil), p.B...) }
 func (p *PubKey) Aggregate(other e2types.PublicKey) {}
-func (p *PubKey) Copy() e2types.PublicKey          { return &PubKey{B: append([]byte(nil), p.B...)} }
+func (p *PubKey) Copy() e2types.PublicKey           { return &PubKey{B: append([]byte(nil), p.B...)} }
 
 // Sig is the stub signature: keyTag(32) ‖ signed root(32) ‖ zeros(32).
 type Sig struct{ B []byte }
@@ -55,7 +55,7 @@ func (s *Sig) Verify(msg []byte, pub e2types.PublicKey) bool {
 	pk := pub.Marshal()
 	return len(msg) == 32 && string(s.B[0:32]) == string(pk[0:32]) && string(s.B[32:64]) == string(msg)
 }
-func (s *Sig) VerifyAggregate(msgs [][]byte, pubKeys []e2types.PublicKey) bool  { return false }
+func (s *Sig) VerifyAggregate(msgs [][]byte, pubKeys []e2types.PublicKey) bool    { return false }
 func (s *Sig) VerifyAggregateCommon(msg []byte, pubKeys []e2types.PublicKey) bool { return false }
 func (s *Sig) Marshal() []byte                                                    { return append([]byte(nil), s.B...) }
 
@@ -112,6 +112,8 @@ func (a *Account) Sign(ctx context.Context, data []byte) (e2types.Signature, err
 		a.L.Signs = append(a.L.Signs, SignCall{Account: a.W.N + "/" + a.N, Key: a.Key, Data: d})
 		a.L.add("sign:" + a.W.N + "/" + a.N)
 	}
+	// the signature exists from here on; the process may die at this very moment
+	vsym.CrashPoint(a.FaultTag + "account.Sign")
 	b := make([]byte, 96)
 	copy(b[0:32], a.Key[0:32])
 	copy(b[32:64], d)
